@@ -12,7 +12,7 @@ From Clemens Require Import Base.Res Base.Word Pos.Types Att.Attacks Pos.Positio
 From ClemensGen Require Import GoConsts.
 From Clemens.C13Mate Require Import MateDefs MateExamples.
 From Clemens.C13Bridge Require Import Bridge Seq.
-From WipCompose Require Import TTGrow TTSession.
+From Clemens.Compose Require Import TTGrow TTSession.
 Import ListNotations.
 Open Scope Z_scope.
 
